@@ -30,6 +30,10 @@ C11_OthersUndisturbed(r) == \A k \in 1..Len(r.obs.others) :
 (*      "delete" id       delete context id                                  *)
 (*      "start"  id w     start worker w in context id                       *)
 (*      "call"   w  x     enqueue x to worker w and take the next result     *)
+(*      "callk"  w  x     the same with a keyword of its own for this input  *)
+(*      "busy"   w        enqueue a job that is one long blocking call       *)
+(*      "rstart" id       worker request naming id by a client that has been *)
+(*                        reset before the server gets to read the request   *)
 (*      "wait"   w        close + wait worker w                              *)
 (*   obs.rep   one reply per request (same length as scn.hist):             *)
 (*      create: "ok" | "ValueError" ;  delete: "T"/"F" ;                     *)
@@ -75,6 +79,7 @@ WorkerEnded(h, n, w) ==
 
 CtxTarget(x, tok) == x * 1000 + tok          \* what vf/drivers/_server_targets.ctx_fun computes
 Val(n) == "v:" \o ToString(n)
+OverrideTok == 77                            \* the keyword value a "callk" request passes for its own input
 \* expected reply of request n according to the dictionary model ("any" = the property does not say)
 Expected(h, n) ==
    LET d == DictAfter(h, n - 1)  q == h[n] IN
@@ -83,6 +88,9 @@ Expected(h, n) ==
      [] q.op = "start"  -> IF d[q.id] = NoTok THEN "nostart" ELSE "started"
      [] q.op = "call"   -> IF WorkerEnded(h, n - 1, q.w) THEN "dead"
                            ELSE Val(CtxTarget(q.x, WorkerTok(h, n - 1, q.w)))
+     [] q.op = "callk"  -> IF WorkerEnded(h, n - 1, q.w) THEN "dead"                \* one input with its own keyword: overrides the default
+                           ELSE Val(CtxTarget(q.x, OverrideTok))                     \* for THIS input only
+     [] q.op = "rstart" -> "nostart"
      [] q.op = "wait"   -> "T"
      [] OTHER -> "any"
 
@@ -101,7 +109,7 @@ C18_FirstIntact(r) == \A n \in ReqsOf(r, {"call"}) :
                                                 /\ DictAfter(r.scn.hist, m - 1)[r.scn.hist[m].id] # NoTok)
                          => r.obs.rep[n] = Expected(r.scn.hist, n)
 \* workers created with a context id execute the context's target with the context's defaults
-C18_WorkersRunCtxTarget(r) == \A n \in ReqsOf(r, {"call", "wait"}) :
+C18_WorkersRunCtxTarget(r) == \A n \in ReqsOf(r, {"call", "callk", "wait"}) :
                                  ~WorkerEnded(r.scn.hist, n - 1, r.scn.hist[n].w) => r.obs.rep[n] = Expected(r.scn.hist, n)
 \* deleting the context ends its workers: none of the workers started in the registration being deleted
 \* is alive (API or OS) shortly after the reply  (obs.live[n] = workers found alive after request n)
@@ -114,7 +122,7 @@ C18_DeleteEndsWorkers(r) == \A n \in ReqsOf(r, {"delete"}) :
 C18_Reusable(r) == \A n \in ReqsOf(r, {"create"}) :
                       DictAfter(r.scn.hist, n - 1)[r.scn.hist[n].id] = NoTok => r.obs.rep[n] = "ok"
 \* requests that name an unknown context never crash the server (and it keeps serving)
-NamesUnknown(r) == \E n \in ReqsOf(r, {"start", "delete"}) : DictAfter(r.scn.hist, n - 1)[r.scn.hist[n].id] = NoTok
+NamesUnknown(r) == \E n \in ReqsOf(r, {"start", "rstart", "delete"}) : DictAfter(r.scn.hist, n - 1)[r.scn.hist[n].id] = NoTok
 C18_UnknownHarmless(r) == NamesUnknown(r) =>
                              /\ r.obs.srv_alive = "T"
                              /\ \A k \in 1..Len(r.obs.fresh) : r.obs.fresh[k].got = r.obs.fresh[k].want
